@@ -347,6 +347,27 @@ def rule_b(ctx, R, bs, site):
         rr, tt = unwrap_result_chain(bs, v, v.root(op))
         ctx.ob("C05-b", "SampleGenerator.table is the builder's Ok payload, unmodified", tt is t, fn, "table-moved-unmodified", where=pat.where(st),
                detail="table field root %r" % (rr,))
+    # every Ok(..) that build_sampler returns carries the sampler assembled HERE from this call's table and this call's signature
+    # (a sampler fetched from anywhere else — a cache, a registry, a default — is some other call's)
+    aggs = list(pat.aggregates(bs, "SampleGenerator"))
+    oks = pat.result_ctor_sites(bs, "Ok")
+    for bj, sj, st in oks:
+        rv = st["rv"]
+        r0 = v.root(rv["ops"][0]) if rv.get("ops") else None
+        local_agg = (r0 is not None and r0.kind == "local" and not r0.path and v.single_def(r0.base[1]) is not None
+                     and any(a_[2]["place"]["l"] == r0.base[1] and not a_[2]["place"]["p"] for a_ in aggs))
+        ctx.ob("C05-b", "the Ok payload is the SampleGenerator assembled in build_sampler", bool(local_agg), fn, "ok-payload-built-here",
+               where=pat.where(st), detail="Ok payload root %r" % (r0,))
+    ctx.ob("C05-b", "build_sampler has an Ok(..) return and assembles a SampleGenerator", bool(oks) and bool(aggs), fn, "ok-payload-floor")
+    for bj, sj, st in aggs:
+        rv = st["rv"]
+        if "loop_signature" in rv["fields"]:
+            rs = v.root(rv["ops"][rv["fields"].index("loop_signature")])
+            is_par = rs.kind == "arg" and not rs.path
+            ctx.ob("C05-b", "SampleGenerator.loop_signature is build_sampler's own parameter, unmodified", is_par, fn, "signature-is-parameter",
+                   where=pat.where(st), detail="loop_signature field root %r" % (rs,))
+        else:
+            ctx.lost("C05-b", "field loop_signature of SampleGenerator", fn)
     for bj, t2, cb in R.local_callees(bs):
         for ai, a in enumerate(t2["args"]):
             if cb.local_ty(ai + 1) == "usize":
